@@ -861,3 +861,106 @@ def check_charges_and_dipole(ctx, rid):
         ctx.check(ok, rid, dp, cg, "calc_ground_dipole", f"dipole[{'open' if open_shell else 'closed'} shell]",
                   f"{'open' if open_shell else 'closed'}-shell dipole = sum Z_core R - sum (atomic population R + 2 P_sp D) in atomic units -> Debye, with the core charges used for the atomic charges",
                   f"{'open' if open_shell else 'closed'}-shell dipole is not sum_a Z_a R_a - Tr(P mu) of the density it is given: dipole and charges describe different densities")
+
+
+# ====================================================================================================================
+# Parser.forward, executed on concrete small batches
+def check_parser(ctx, rid, aspects=("index", "pairs")):
+    """Parser.forward is interpreted (sa.npsym) on concrete padded batches -- every combination of 1..3 real atoms per molecule for 1, 2 and 3 molecules of size 3,
+    integer species, rational coordinates -- and its 18 results are compared with their definitions: per-molecule counts, the real-atom list and its diagonal-block
+    indices, and one record per kept pair (i < j real atoms of the same molecule with |r_j - r_i|^2 < cutoff^2): packed atom indices, atomic numbers, block index and
+    its transpose, molecule id, distance * length_conversion_factor and the unit vector (r_j - r_i)/|r_j - r_i|.  Records are compared as a set, so a different pair
+    order is accepted but any misalignment between the per-pair arrays is not.  With a finite cutoff the test geometries contain a pair inside the cutoff cube but
+    outside the cutoff sphere."""
+    import itertools
+    import random
+    import numpy as np
+    import sympy as sp
+    from .loader import AnalysisError
+    from .npsym import NpSym, Raised
+    repo = ctx.repo
+    bs = repo.mod("seqm/basics.py")
+    f = bs.func("Parser.forward")
+    tore = np.array([0, 1, 0, 0, 0, 0, 4, 5, 6, 7], dtype=np.int64)
+    lcf = sp.Rational(189, 100)
+    ms = 3
+    pool = [[8, 6, 1], [7, 1, 0], [6, 0, 0], [8, 1, 1], [7, 6, 0], [1, 0, 0]]
+    rng = random.Random(3)
+    n_runs = 0
+    bad = []
+    for nmol in (1, 2, 3):
+        for combo in itertools.product(range(len(pool)), repeat=nmol):
+            if (nmol == 3 and rng.random() > 0.1) or (nmol == 2 and rng.random() > 0.6):
+                continue
+            species = np.array([pool[c] for c in combo], dtype=np.int64)
+            # geometry: atom 1 at distance 1 along a random axis, atom 2 at (6/5, 6/5, 0): inside the cube of half-width 3/2 but outside the sphere of radius 3/2
+            coords = np.empty((nmol, ms, 3), dtype=object)
+            for m in range(nmol):
+                o = [sp.Rational(rng.randint(-5, 5), 2) for _ in range(3)]
+                ax = rng.randint(0, 2)
+                coords[m, 0] = o
+                coords[m, 1] = [o[c] + (1 if c == ax else 0) for c in range(3)]
+                coords[m, 2] = [o[0] + sp.Rational(6, 5), o[1] + sp.Rational(6, 5), o[2]]
+            nel = [int(sum(tore[z] for z in species[m])) for m in range(nmol)]
+            charge = np.array([n % 2 for n in nel], dtype=np.int64)
+            for cutoff in (sp.Integer(10) ** 10, sp.Rational(3, 2)):
+                I = NpSym(repo)
+                mol = types.SimpleNamespace(species=species, coordinates=coords.copy(), const=types.SimpleNamespace(tore=tore, length_conversion_factor=lcf),
+                                            tot_charge=charge, mult=np.ones(nmol, dtype=np.int64))
+                selfns = types.SimpleNamespace(outercutoff=cutoff, uhf=False, hipnn_automatic_doublet=False, elements=None)
+                try:
+                    res = I.call_function(bs, f, [selfns, mol, "AM1"], {"return_mask_l": True})
+                except Raised as e:
+                    bad.append(f"a valid closed-shell batch {species.tolist()} is rejected: {e.what[:80]}")
+                    continue
+                n_runs += 1
+                if not (isinstance(res, tuple) and len(res) == 18):
+                    raise AnalysisError("Parser.forward(return_mask_l=True) does not return 18 values")
+                (r_nmol, r_ms, nSH, nHeavy, nHydro, nocc, Z, maskd, atom_molid, mask, mask_l, pair_molid, ni, nj, idxi, idxj, xij, rij) = res
+                atoms = [(m, p) for m in range(nmol) for p in range(ms) if species[m, p] > 0]
+                tl = lambda x: [int(t) for t in np.asarray(x).reshape(-1)]
+                where = f"batch {species.tolist()}, cutoff {'infinite' if cutoff > 100 else cutoff}"
+                if "index" in aspects:
+                    if (int(r_nmol), int(r_ms)) != (nmol, ms):
+                        bad.append(f"{where}: (nmol, molsize) = {(r_nmol, r_ms)}")
+                    if tl(nHeavy) != [int((species[m] > 1).sum()) for m in range(nmol)] or tl(nHydro) != [int((species[m] == 1).sum()) for m in range(nmol)] or any(tl(nSH)):
+                        bad.append(f"{where}: heavy / hydrogen counts per molecule are {tl(nHeavy)} / {tl(nHydro)}")
+                    if tl(nocc) != [(nel[m] - int(charge[m])) // 2 for m in range(nmol)]:
+                        bad.append(f"{where}: occupied orbitals {tl(nocc)} are not (valence electrons - charge)/2 of each molecule")
+                    if tl(Z) != [int(species[m, p]) for m, p in atoms]:
+                        bad.append(f"{where}: Z is not the list of real atoms in batch order")
+                    if tl(maskd) != [m * ms * ms + p * ms + p for m, p in atoms]:
+                        bad.append(f"{where}: maskd is not the diagonal block of each real atom")
+                    if tl(atom_molid) != [m for m, p in atoms]:
+                        bad.append(f"{where}: atom_molid is not each real atom's molecule")
+                # per-pair records
+                want = set()
+                for a, (ma, pa) in enumerate(atoms):
+                    for b, (mb, pb) in enumerate(atoms):
+                        if a < b and ma == mb:
+                            dvec = [coords[ma, pb, c] - coords[ma, pa, c] for c in range(3)]
+                            d2 = sum(x * x for x in dvec)
+                            if d2 < cutoff ** 2:
+                                d = sp.sqrt(d2)
+                                want.add((a, b, int(species[ma, pa]), int(species[mb, pb]), ma * ms * ms + pa * ms + pb, ma * ms * ms + pb * ms + pa, ma,
+                                          sp.nsimplify(d * lcf), tuple(sp.nsimplify(x / d) for x in dvec)))
+                npairs = len(tl(idxi))
+                got = set()
+                try:
+                    for k in range(npairs):
+                        got.add((int(idxi[k]), int(idxj[k]), int(ni[k]), int(nj[k]), int(mask[k]), int(mask_l[k]), int(pair_molid[k]),
+                                 sp.nsimplify(rij[k]), tuple(sp.nsimplify(xij[k, c]) for c in range(3))))
+                except Exception as e:
+                    bad.append(f"{where}: per-pair arrays have inconsistent lengths ({type(e).__name__})")
+                    continue
+                if "pairs" in aspects or "index" in aspects:
+                    if got != want or npairs != len(want):
+                        extra, missing = sorted(got - want, key=str)[:1], sorted(want - got, key=str)[:1]
+                        bad.append(f"{where}: pair records differ from the definition (i<j real atoms of one molecule with |r_ij|^2 < cutoff^2; indices, atomic numbers, block, transposed "
+                                   f"block, molecule, distance, unit vector r_j - r_i): unexpected {extra}, missing {missing}")
+    if n_runs < 30:
+        raise AnalysisError(f"Parser.forward: only {n_runs} batches interpreted")
+    ctx.check(not bad, rid, bs, f, "Parser.forward", "interpreted batches",
+              f"Parser.forward returns the defined counts, atom lists, block indices and pair records on {n_runs} concrete padded batches (1-3 molecules, all real-atom counts, "
+              f"infinite and finite cutoff with a pair inside the cutoff cube but outside the sphere)",
+              f"Parser.forward: {bad[0] if bad else ''} ({len(bad)} discrepancies on {n_runs} interpreted batches): molecules of a padded batch are mis-indexed / the pair list is not the radial cutoff list")
